@@ -2089,6 +2089,10 @@ accumulator means six bytes will be moved.
 
 */
 func op_mvn(cpu *CPU) {
+	if cpu.M == 1 {
+		// the count is the full 16-bit C accumulator regardless of the m flag
+		cpu.RA = uint16(cpu.RAh)<<8 | uint16(cpu.RAl)
+	}
 	dst := cpu.nRead(cpu.RK, cpu.StepInfo.Addr)
 	src := cpu.nRead(cpu.RK, cpu.StepInfo.Addr+1)
 
@@ -2113,6 +2117,10 @@ func op_mvn(cpu *CPU) {
 
 // MVP - MoVe memory Positive
 func op_mvp(cpu *CPU) {
+	if cpu.M == 1 {
+		// the count is the full 16-bit C accumulator regardless of the m flag
+		cpu.RA = uint16(cpu.RAh)<<8 | uint16(cpu.RAl)
+	}
 	dst := cpu.nRead(cpu.RK, cpu.StepInfo.Addr)
 	src := cpu.nRead(cpu.RK, cpu.StepInfo.Addr+1)
 
